@@ -218,6 +218,11 @@ class Renderer:
         if param_stmt:
             items = ", ".join(f"{self.idn(e['name'])} = {e['init']}" for e in d["ents"])
             after.append(Line(f"{self.kw('parameter')} ({items})"))
+        # attributes that only some of the entities of the statement have: always by a statement naming just them
+        for e in d["ents"]:
+            for a in e.get("extra_attrs", []):
+                dcs = " :: " if self.flag("attrstmt-dcolon") else " "
+                after.append(Line(self.kw(a) + dcs + self.idn(e["name"])))
         return before, main, after
 
     def docsty(self, doc):
@@ -778,7 +783,7 @@ class Renderer:
                 k = self.ch.choice(pts) if force else pts[-1]
             pieces.append(rest[:k])
             rest = rest[k:]
-            force = False
+            force = force and self.ch.bool(1, 2)      # (three and more lines: continuation lines that are continued)
         pieces.append(rest)
         return pieces
 
